@@ -947,7 +947,8 @@ def heap_text(c):
         k = o["op"]
         out.append({"create": "create(t%d)" % o.get("t", 0), "add": "add(b%d,s%d)" % (o.get("b", 0), o.get("s", 0)), "build": "build(b%d)" % o.get("b", 0),
                     "append": "append(k%d)" % o.get("k", 0), "getblockid": "getblockid(t%d,s%d)" % (o.get("t", 0), o.get("s", 0)),
-                    "seal": "seal(t%d)" % o.get("t", 0), "reload": "reload(t%d)" % o.get("t", 0)}[k])
+                    "seal": "seal(t%d)" % o.get("t", 0), "reload": "reload(t%d)" % o.get("t", 0),
+                    "newbuilder": "newbuilder", "buildroot": "buildroot(b%d)" % o.get("b", 0)}[k])
     return " ".join(out)
 
 
@@ -1011,6 +1012,11 @@ def c08(run):
     if not rn.violated:
         raise Infra("negative model SymHeap_today holds")
     run.notes.append("negative model (SymbolTable.Clone copies the slice header): TLC reports %s violated" % rn.violated)
+    rk = core.tlc(run.work, "SymHeap", "SymHeap_neg_build", expect_violation=True)
+    run.add_tlc(rk, "negative model: Build replaces the builder's table by the split-off part")
+    if not rk.violated:
+        raise Infra("negative model SymHeap_neg_build holds")
+    run.notes.append("negative model (Build mutates the builder; builder filled further / built again): TLC reports %s violated" % rk.violated)
     rb = core.tlc(run.work, "SymHeap", "SymHeap_neg_blocklist", expect_violation=True)
     run.add_tlc(rb, "negative model: Append extends the parent's block list in place")
     if not rb.violated:
